@@ -739,13 +739,19 @@ impl CheckImpl for C20 {
             Tier::Quick => {
                 jobs.push((format!("pairs:{}:6:{}", mix(seed, 0xC, 0) % light_len, seed % 1000), "FFT64Ref", 8, 1));
                 jobs.push((format!("pairs:{}:4:{}", mix(seed, 0xC, 1) % light_len, seed % 1000), "NTT120Ref", 8, 1));
+                jobs.push((format!("pairs:{}:5:{}", mix(seed, 0xC, 2) % light_len, seed % 1000), "FFT64Avx", 8, 1));
+                jobs.push((format!("pairs:{}:2:{}", mix(seed, 0xC, 3) % light_len, seed % 1000), "NTT120Avx", 16, 1));
             }
             Tier::Thorough => {
+                // whole inventory on three backends; NTT120Avx costs ~45 s per pair under Miri: a rotating sample
                 let per = light_len.div_ceil(16);
-                for be in ["FFT64Ref", "NTT120Ref"] {
+                for be in ["FFT64Ref", "NTT120Ref", "FFT64Avx"] {
                     for k in 0..16 {
                         jobs.push((format!("pairs:{}:{per}:{}", k * per, seed % 1000), be, 8, 1));
                     }
+                }
+                for k in 0..16 {
+                    jobs.push((format!("pairs:{}:3:{}", mix(seed, 0xD, k) % light_len, seed % 1000), "NTT120Avx", 16, 1));
                 }
             }
         }
@@ -788,7 +794,7 @@ impl CheckImpl for C20 {
                 viols.push(miri_viol(&sc, &be, n, first, first + k, &r.1));
             }
         }
-        let ev = json!({"engine": "miri (nightly), scheduler hooks not installed, -Zmiri-many-seeds, -Zmiri-preemption-rate=0.1: data-race and UB detector on the reference backends",
+        let ev = json!({"engine": "miri (nightly), scheduler hooks not installed, -Zmiri-many-seeds, -Zmiri-preemption-rate=0.1: data-race and UB detector; eval/shared/prep/mix on the reference backends, PAIRS on all four (borrow tracking off on the AVX ones)",
                         "runs": runs, "wall_s": t0.elapsed().as_secs_f64()});
         (viols, ev)
     }
@@ -992,11 +998,19 @@ pub fn miri_main(args: &[String]) -> ! {
 
 /// Runs `poulpy-sim miri <scenario> <backend> <n>` under Miri for seeds [from, to). Returns (ok, report excerpt).
 fn miri_run(scenario: &str, backend_name: &str, n: u32, from: u32, to: u32) -> (bool, String) {
-    miri_run_args(&["miri", scenario, backend_name, &n.to_string()], from, to, "MIRI-ENGINE-B: ok")
+    // The AVX kernels write through pointers derived from `as_ptr()` of a `&mut` slice (znx_avx/normalization.rs):
+    // an aliasing-model matter outside C20, so borrow tracking is off there; the race detector and the
+    // bounds / initialisation checks stay on.
+    let extra = if backend_name.ends_with("Avx") { " -Zmiri-disable-stacked-borrows" } else { "" };
+    miri_run_flags(&["miri", scenario, backend_name, &n.to_string()], from, to, "MIRI-ENGINE-B: ok", extra)
 }
 
 /// Runs `poulpy-sim <argv>` under Miri for Miri seeds [from, to); success = exit 0 and one `ok_marker` line per seed.
 pub fn miri_run_args(argv: &[&str], from: u32, to: u32, ok_marker: &str) -> (bool, String) {
+    miri_run_flags(argv, from, to, ok_marker, "")
+}
+
+pub fn miri_run_flags(argv: &[&str], from: u32, to: u32, ok_marker: &str, extra_flags: &str) -> (bool, String) {
     let root = crate::driver::verif_root();
     let mut args: Vec<&str> = vec!["+nightly", "miri", "run", "--quiet", "--"];
     args.extend_from_slice(argv);
@@ -1007,7 +1021,7 @@ pub fn miri_run_args(argv: &[&str], from: u32, to: u32, ok_marker: &str) -> (boo
         .env("CARGO_NET_OFFLINE", "true")
         .env(
             "MIRIFLAGS",
-            format!("-Zmiri-disable-isolation -Zmiri-preemption-rate=0.1 -Zmiri-many-seeds={from}..{to}"),
+            format!("-Zmiri-disable-isolation -Zmiri-preemption-rate=0.1 -Zmiri-many-seeds={from}..{to}{extra_flags}"),
         )
         .output();
     match out {
@@ -1048,6 +1062,6 @@ fn miri_viol(scenario: &str, backend_name: &str, n: u32, from: u32, to: u32, rep
         subject: format!("{}/{backend_name}", scenario.split(':').next().unwrap_or(scenario)),
         detail: format!("Miri (seeds {from}..{to}) reported: {report}"),
         replay: json!({"engine": "B", "scenario": scenario, "backend": backend_name, "n": n, "seed_from": from, "seed_to": to,
-                       "miri_flags": "-Zmiri-disable-isolation -Zmiri-preemption-rate=0.1 -Zmiri-many-seeds"}),
+                       "miri_flags": "-Zmiri-disable-isolation -Zmiri-preemption-rate=0.1 -Zmiri-many-seeds (+ -Zmiri-disable-stacked-borrows on the AVX backends)"}),
     }
 }
